@@ -105,6 +105,74 @@ func VH_C01_RecvStep() {
 	}
 }
 
+// VH_C01_RecvSeq (O1 over a short history): `pkts` consecutive DATA packets
+// (pings included) that the channel invariant allows in flight, fed to one run
+// of the real receive loop from an arbitrary expected sequence number, so that
+// the loop's memory between packets (the NACK back-off) is exercised. Against
+// a reference receiver: an in-order packet is answered by exactly ACK(seq) and
+// advances the expectation; anything else is answered by NACK(expected) or not
+// at all, never by an ACK - an acknowledgement for a packet that was not
+// accepted lets the sender drop data that was never delivered.
+func VH_C01_RecvSeq() {
+	n := vU8("n")
+	vAssume(n >= 1 && n <= 254)
+	s := int(n) + 1
+	recvSeq := vU8("recvSeq")
+	vAssume(int(recvSeq) < s)
+	k := vParam("pkts", 2)
+	w := &vWire{}
+	seqs := make([]uint8, k)
+	pings := make([]bool, k)
+	for i := 0; i < k; i++ {
+		q := vU8("seq")
+		vAssume(int(q) < s)
+		seqs[i], pings[i] = q, vBool("ping")
+		raw, err := (&PacketData{Seq: q, FinalChunk: true, IsPing: pings[i], Payload: vBytes("p", 1)}).Serialize()
+		vAssume(err == nil)
+		w.in = append(w.in, raw)
+	}
+	g := vConn(n, w)
+	g.recvSeq = recvSeq
+	vReach("recv-seq")
+	lerr := g.receivePacketsForever()
+	vAssert(lerr != nil, "receive loop ended without the scripted transport error")
+	// replay the outputs against the reference
+	exp := recvSeq
+	o := 0
+	delivered := 0
+	for i := 0; i < k; i++ {
+		if seqs[i] == exp {
+			vAssert(o < len(w.out), "in-order packet not acknowledged")
+			if o >= len(w.out) {
+				return
+			}
+			m, derr := Deserialize(w.out[o])
+			a, isAck := m.(*PacketACK)
+			vAssert(derr == nil && isAck && a.Seq == seqs[i], "in-order packet not answered with ACK(seq)")
+			o++
+			if !pings[i] {
+				delivered++
+			}
+			exp++
+			if int(exp) == s {
+				exp = 0
+			}
+			continue
+		}
+		// out of order or duplicate: at most one answer, and only NACK(expected)
+		if o < len(w.out) {
+			m, derr := Deserialize(w.out[o])
+			if a, isNack := m.(*PacketNACK); derr == nil && isNack {
+				vAssert(a.Seq == exp, "out-of-order packet answered with a NACK for another sequence number")
+				o++
+			}
+		}
+	}
+	vAssert(o == len(w.out), "the receiver sent an answer the packets do not call for (an ACK for a packet it did not accept, or a surplus packet)")
+	vAssert(g.recvSeq == exp, "expected sequence number differs from the reference receiver's")
+	vAssert(len(g.recvDataChan) == delivered, "number of delivered packets differs from the reference receiver's")
+}
+
 // VH_C01_AckGhost (O2): in ghost terms. The sender has tau outstanding packets,
 // the receiver has accepted rho <= tau of them; an ACK in flight acknowledges
 // ghost index alpha in [-1, rho). After processACK the base offset is exactly
